@@ -42,6 +42,10 @@ type kOp struct {
 	A2     string `json:"a2"`
 	Slip   string `json:"slip,omitempty"`   // slippage limit mantissa
 	Shares string `json:"shares,omitempty"` // withdraw
+	// message-level histories only (kHist.Mode == "tx")
+	T        int64 `json:"t,omitempty"`        // block time, Unix seconds
+	TN       int64 `json:"tn,omitempty"`       // ... and its nanoseconds
+	Deadline int64 `json:"deadline,omitempty"` // the message's deadline, Unix seconds
 }
 
 type kGenesis struct {
@@ -185,6 +189,8 @@ func kErrKind(err error) string {
 	switch {
 	case strings.HasPrefix(m, "panic:"):
 		return "panic"
+	case strings.Contains(m, "deadline exceeded"):
+		return "deadline"
 	case strings.Contains(m, "slippage exceeded"):
 		return "slippage"
 	case strings.Contains(m, "insufficient liquidity"):
@@ -1063,6 +1069,7 @@ var kAllSplits = []string{
 
 type kHist struct {
 	Kind    string   `json:"kind"` // "keeper"
+	Mode    string   `json:"mode,omitempty"` // "" = keeper calls; "tx" = ValidateBasic + msg server at generated block times
 	Seed    uint64   `json:"seed"`
 	Idx     int      `json:"history"`
 	Genesis kGenesis `json:"genesis"`
@@ -1071,6 +1078,11 @@ type kHist struct {
 
 // kRun executes generated (ops == nil) or explicit operations.
 func kRun(seed uint64, idx, n int, gen *kGenesis, ops []kOp, cnt *Counters) (h kHist, coq string, fail *Failure, splits map[string]bool) {
+	return kRunMode("", seed, idx, n, gen, ops, cnt)
+}
+
+func kRunMode(mode string, seed uint64, idx, n int, gen *kGenesis, ops []kOp, cnt *Counters) (h kHist, coq string, fail *Failure, splits map[string]bool) {
+	tx := mode == "tx"
 	r := NewRng(seed, uint64(idx))
 	var g kGenesis
 	if gen != nil {
@@ -1087,15 +1099,25 @@ func kRun(seed uint64, idx, n int, gen *kGenesis, ops []kOp, cnt *Counters) (h k
 	if ops != nil {
 		n = len(ops)
 	}
-	h = kHist{Kind: "keeper", Seed: seed, Idx: idx, Genesis: g}
+	h = kHist{Kind: "keeper", Mode: mode, Seed: seed, Idx: idx, Genesis: g}
+	now := w.ctx.BlockTime().Unix()
 	for i := 0; i < n; i++ {
 		var op kOp
 		if ops != nil {
 			op = ops[i]
 		} else {
 			op = kGenOp(r, w, prev, trip)
+			if tx {
+				txTimes(r, &now, &op)
+			}
 		}
-		cls, err := w.exec(op)
+		var cls Class
+		var err error
+		if tx {
+			cls, err = w.execTx(op)
+		} else {
+			cls, err = w.exec(op)
+		}
 		if os.Getenv("C07_DEBUG") != "" && cls != ClassOk {
 			x, y := sortPair(op.D1, op.D2)
 			fmt.Fprintf(os.Stderr, "DBG %s %+v pool=%v bal=%v err=%v\n", kErrKind(err), op, prev.pool(x, y), prev.bal[op.Who], err)
@@ -1103,7 +1125,11 @@ func kRun(seed uint64, idx, n int, gen *kGenesis, ops []kOp, cnt *Counters) (h k
 		after := w.snap()
 		h.Ops = append(h.Ops, op)
 		if cnt != nil {
-			cnt.Inc("op:" + op.Kind + ":" + cls.String())
+			pre := "op:"
+			if tx { // counted apart: deadline and ValidateBasic refusals are deliberate there
+				pre = "optx:"
+			}
+			cnt.Inc(pre + op.Kind + ":" + cls.String())
 			if cls != ClassOk {
 				cnt.Inc("err:" + op.Kind + ":" + kErrKind(err))
 			}
@@ -1111,11 +1137,26 @@ func kRun(seed uint64, idx, n int, gen *kGenesis, ops []kOp, cnt *Counters) (h k
 		for _, k := range kSplits(w, op, cls, err, prev, after, cnt) {
 			splits[k] = true
 		}
-		steps = append(steps, fmt.Sprintf("(%s,\n    %s)", kCoqOp(op), kCoqObs(cls, prev, after)))
-		if pred, sig, detail := kMonitor(w, op, cls, err, prev, after, trip); pred != "" && fail == nil {
+		var pred, sig, detail string
+		if tx {
+			steps = append(steps, kCoqMsgStep(op, kCoqObs(cls, prev, after)))
+			pred, sig, detail = kMonitorTx(w, op, cls, err, prev, after, trip, func(k string) {
+				splits[k] = true
+				if cnt != nil {
+					cnt.Inc("split:keeper:" + k)
+				}
+			})
+		} else {
+			steps = append(steps, fmt.Sprintf("(%s,\n    %s)", kCoqOp(op), kCoqObs(cls, prev, after)))
+			pred, sig, detail = kMonitor(w, op, cls, err, prev, after, trip)
+		}
+		if pred != "" && fail == nil {
 			fail = &Failure{History: idx, Step: i, Predicate: pred, Signature: sig, Detail: detail}
 		}
 		prev = after
+	}
+	if tx { // an [mhistory] term instead of the [HK] constructor
+		header = "mkMH" + strings.TrimPrefix(header, "HK")
 	}
 	coq = fmt.Sprintf("%s\n  %s", header, List(steps))
 	return
